@@ -20,7 +20,7 @@ func c07Prop(st *CaseStats, fam int) func(t *rapid.T) {
 		sc := GenScenario(t)
 		cfg := CaseCfg{Family: fam, MaxDocs: 8, MaxIn: 3, HoldAny: true}
 		depth := rapid.SampledFrom([]int{0, 0, 1, 1, 2}).Draw(t, "depth")
-		if fam == FamBlocks || fam == FamWide {
+		if fam == FamBlocks || fam == FamWide || fam == FamHuge {
 			cfg.MaxIn = 2
 			depth = rapid.SampledFrom([]int{0, 0, 1}).Draw(t, "depth")
 		}
@@ -87,8 +87,11 @@ func c07Prop(st *CaseStats, fam int) func(t *rapid.T) {
 				if cur > 0 {
 					cur--
 				}
-			case 3: // just before / after a 1024 boundary
+			case 3: // just before / after a 1024 boundary (or the 65536 container boundary)
 				b := rapid.IntRange(0, n/1024).Draw(t, "boundary") * 1024
+				if n > 65536 && rapid.Bool().Draw(t, "at65536") {
+					b = 65536
+				}
 				cur = b + rapid.SampledFrom([]int{-1, 0, 1}).Draw(t, "side")
 			case 4:
 				cur = n - 1
@@ -163,4 +166,10 @@ func TestC07Mid(t *testing.T) {
 	st := NewStats("C07Mid", c07Rule)
 	defer st.Flush()
 	rapid.Check(t, c07Prop(st, FamMid))
+}
+
+func TestC07Huge(t *testing.T) {
+	st := NewStats("C07Huge", c07Rule)
+	defer st.Flush()
+	rapid.Check(t, c07Prop(st, FamHuge))
 }
